@@ -398,7 +398,9 @@ func ruleRawPassthrough(c *Ctx, rule string) {
 	var guard *ssa.If
 	var notRaw *ssa.BasicBlock
 	for _, iff := range ifsIn(w) {
-		if _, fb, _, hit := succWhenFunc(iff, func(cs string) bool { return strings.HasSuffix(cs, ".(*message.MessageRaw)?#1") && !strings.HasPrefix(cs, "!") }); hit {
+		if _, fb, _, hit := succWhenFunc(iff, func(cs string) bool {
+			return strings.HasSuffix(cs, ".(*message.MessageRaw)?#1") && !strings.HasPrefix(cs, "!")
+		}); hit {
 			guard, notRaw = iff, fb
 		}
 	}
